@@ -75,6 +75,18 @@ def run(ctx):
     n = 4000 if ctx.tier == "thorough" else 800
     rep, mm = run_harness(ctx, vh, ["-n", str(n)])
     admitted, executed, exercised = judge(ctx, rep, mm)
+    # every transaction kind registered in the public router must be among the kinds whose mutants were tried
+    import re as _re
+    txt = open(os.path.join(common.VERIF, "coq", "gen", "Facts_TxKinds.v")).read()
+    registered = []
+    for d in ("public_kinds", "ext_public_kinds"):
+        m_ = _re.search(r"Definition %s : list string := \[(.*?)\]\." % d, txt, _re.S)
+        if m_:
+            registered += _re.findall(r'"([A-Z0-9_]+)"', m_.group(1))
+    tried = {k["kind"] for k in rep["kinds"]}
+    not_tried = sorted(k for k in set(registered) if not any(g == k or g.startswith(k + "_") for g in tried))
+    if (len(registered) < 30 or not_tried) and ctx.violations == 0:
+        raise Broken("registered transaction kinds whose authentication is not exercised: %s" % (", ".join(not_tried) or "list unreadable"))
     nm = sum(len(k["mutants"]) for k in rep["kinds"])
     hist = {}
     for k in rep["kinds"]:
@@ -82,6 +94,7 @@ def run(ctx):
             key = m["class"] + ("/rejected" if m["check_code"] else "/ADMITTED")
             hist[key] = hist.get(key, 0) + 1
     ctx.coverage.update({
+        "registered_kinds": len(set(registered)), "registered_kinds_not_exercised": not_tried,
         "evaluations": rep["vb_cases"] + nm, "distinct_nontrivial": len(set(rep["vb_case_descr"])) + nm,
         "rule": "ValidateBasic cases: random (content, signers 0-3, signatures) with one perturbation (drop, duplicate, swap, substitute key, signed by other key, "
                 "signed over other content, corrupted bytes, wrong algorithm, extra signature) or none; app level: for each of %d transaction kinds a valid signed "
